@@ -38,10 +38,14 @@ ASSUMPTIONS = [
     "values are compared with == (no arithmetic happens), the Woehler results with rtol 1e-12 (vector vs scalar pow)",
 ]
 
-KEYS_Q = {"a": (10, 20), "b": ("x", "y"), "c": (1.5, 2.5), "n": (0, 1), "s": ("p", "q")}
-KEYS_T = {"a": (10, 20, 30), "b": ("x", "y"), "c": (1.5, 2.5), "n": (0, 1), "s": ("p", "q")}
-NAME = {"a": "a", "b": "b", "c": "c", "n": None, "s": None}
-LAYOUTS = (("a",), ("b",), ("c",), ("n",), ("s",), ("a", "b"), ("b", "a"), ("a", "c"), ("a", "n"))
+KEYS_Q = {"a": (10, 20), "b": ("x", "y"), "c": (1.5, 2.5), "n": (0, 1), "s": ("p", "q"), "z": (10, 20), "e": ("x", "y")}
+KEYS_T = {"a": (10, 20, 30), "b": ("x", "y"), "c": (1.5, 2.5), "n": (0, 1), "s": ("p", "q"), "z": (10, 20), "e": ("x", "y")}
+# "e": a level that HAS a name, but a falsy one ('' as from a csv header); it must be treated like any named level, not
+# like an unnamed one.  ("z": integer names are NOT enumerated: pandas itself reads an integer `level=` as a level number,
+# so name 1 raises IndexError and name 0 gives NaN in the cross join on the unchanged tree - a pandas ambiguity, observed,
+# outside the claims.)
+NAME = {"a": "a", "b": "b", "c": "c", "n": None, "s": None, "z": 0, "e": ""}
+LAYOUTS = (("a",), ("b",), ("c",), ("n",), ("s",), ("a", "b"), ("b", "a"), ("a", "c"), ("a", "n"), ("e",), ("e", "a"))
 
 
 def bounds(tier):
